@@ -473,7 +473,7 @@ def rand_index(
     # Check for empty annotations.  Don't need to check labels because
     # validate_structure makes sure they're the same size as intervals
     if reference_intervals.size == 0 or estimated_intervals.size == 0:
-        return 0.0, 0.0, 0.0
+        return 0.0
 
     # Generate the cluster labels
     y_ref = util.intervals_to_samples(
@@ -644,7 +644,7 @@ def ari(
     # Check for empty annotations.  Don't need to check labels because
     # validate_structure makes sure they're the same size as intervals
     if reference_intervals.size == 0 or estimated_intervals.size == 0:
-        return 0.0, 0.0, 0.0
+        return 0.0
 
     # Generate the cluster labels
     y_ref = util.intervals_to_samples(
